@@ -41,6 +41,7 @@ struct Inner {
     events: Vec<Event>,
     read_timeout: Duration,
     t_call: i64,
+    last_sent: Vec<u8>,
 }
 
 pub struct Shared {
@@ -63,7 +64,7 @@ pub struct Driver {
 
 pub fn sim_pair(read_timeout: Duration, snapshot: Snapshot, path: &str, id: u16) -> (SimSocket, Driver) {
     let sh = Arc::new(Shared {
-        m: Mutex::new(Inner { recv_pending: None, answer: None, closed: false, events: vec![], read_timeout, t_call: 0 }),
+        m: Mutex::new(Inner { recv_pending: None, answer: None, closed: false, events: vec![], read_timeout, t_call: 0, last_sent: vec![] }),
         cv: Condvar::new(),
         gen: std::sync::atomic::AtomicU64::new(0),
         snapshot,
@@ -127,6 +128,12 @@ impl Socket for SimSocket {
         // observation taken at the instant of emission, on the worker's own thread
         let file = file_snapshot(&self.sh.path, self.sh.snapshot);
         let mut g = self.sh.m.lock().unwrap();
+        // duplicate-packets mode: the subject pauses 1 ms (real time) before every further copy of a datagram; the same
+        // millisecond passes on the virtual clock, so that a long burst of copies can reach the timeout
+        if !g.last_sent.is_empty() && g.last_sent == bytes {
+            tftpd::verif::sim_advance(Duration::from_millis(1));
+        }
+        g.last_sent = bytes.clone();
         g.events.push(Event::Send { bytes, t: tftpd::verif::sim_now_ns(), file });
         Ok(())
     }
@@ -138,6 +145,7 @@ impl Socket for SimSocket {
     fn recv_with_size(&self, size: usize) -> Result<Packet, Box<dyn std::error::Error>> {
         let mut g = self.sh.m.lock().unwrap();
         g.recv_pending = Some(size);
+        g.last_sent.clear();
         g.t_call = tftpd::verif::sim_now_ns();
         self.sh.bump();
         while g.answer.is_none() {
@@ -330,6 +338,13 @@ pub struct ExploreStats {
 /// cost stays within `bound`. Bounds are iterated 0..=bound so the first counterexample has the fewest deviations.
 /// `run` returns the choice log and the number of transitions it delivered; `false` from `on_exec` aborts.
 pub fn explore(bound: u64, max_exec: u64, run: &mut dyn FnMut(&[u16]) -> (Vec<ChoiceRec>, u64)) -> ExploreStats {
+    explore_sharded(bound, max_exec, (0, 1), run)
+}
+
+/// `shard = (i, n)`: of the executions with exactly one deviation (the children of the fault-free run), only every n-th one
+/// starting with the i-th — and everything below it — is explored; the n shards together cover the whole tree (the
+/// fault-free run itself is executed by every shard). Used to spread one expensive cell over several processes.
+pub fn explore_sharded(bound: u64, max_exec: u64, shard: (usize, usize), run: &mut dyn FnMut(&[u16]) -> (Vec<ChoiceRec>, u64)) -> ExploreStats {
     let mut st = ExploreStats { executions: 0, transitions: 0, capped: false, max_dev_completed: 0 };
     // a single DFS at the full bound visits exactly the executions with <= bound deviations; to report the
     // completed level we process by exact deviation count: level d expands only prefixes with exactly d deviations.
@@ -362,6 +377,9 @@ pub fn explore(bound: u64, max_exec: u64, run: &mut dyn FnMut(&[u16]) -> (Vec<Ch
             }
         }
         st.max_dev_completed = level;
+        if level == 0 && shard.1 > 1 {
+            next_level = next_level.into_iter().enumerate().filter(|(k, _)| k % shard.1 == shard.0).map(|(_, p)| p).collect();
+        }
         frontier = next_level;
         if frontier.is_empty() {
             st.max_dev_completed = bound;
